@@ -168,13 +168,22 @@ def gen_circuit_spec(rng, cfg):
         elif k == "g1":
             spec.append({"g": rng.choice(["H", "S", "T", "X", "Y", "Z"]), "at": rng.choice(qpos)})
         elif k == "rot":
-            spec.append({"g": rng.choice(["Rx", "Rz"]), "phase": rng.choice(PHASES), "at": rng.choice(qpos)})
+            g, at, phase = rng.choice(["Rx", "Rz"]), rng.choice(qpos), rng.choice(PHASES)
+            if g == "Rz" and rng.random() < 0.6:      # a phase only shows between basis changes
+                spec += [{"g": "H", "at": at}, {"g": g, "phase": phase, "at": at}, {"g": "H", "at": at}]
+            else:
+                spec.append({"g": g, "phase": phase, "at": at})
         elif k == "g2":
             spec.append({"g": rng.choice(["CX", "CZ"]), "at": rng.choice(adjq)})
         elif k == "cgate_named":
             spec.append({"g": rng.choice(["CY", "CH"]), "at": rng.choice(adjq)})
         elif k == "crz":
-            spec.append({"g": "CRz", "phase": rng.choice(PHASES), "at": rng.choice(adjq)})
+            at, phase = rng.choice(adjq), rng.choice(PHASES)
+            if rng.random() < 0.6:
+                spec += [{"g": "H", "at": at}, {"g": "H", "at": at + 1}, {"g": "CRz", "phase": phase, "at": at},
+                         {"g": "H", "at": at}, {"g": "H", "at": at + 1}]
+            else:
+                spec.append({"g": "CRz", "phase": phase, "at": at})
         elif k == "swapq":
             spec.append({"g": "SWAP", "at": rng.choice(adjq)})
         elif k == "measure":
